@@ -243,11 +243,19 @@ class XMLTransformerPipeline(BaseTransformerPipeline):
 
             new_lines = output_file.readlines()
             # TODO there's a failure potential here for very large files
-            original_lines = (
-                file_context.file_path.read_bytes()
-                .decode("utf-8")
-                .splitlines(keepends=True)
-            )
+            try:
+                original_lines = (
+                    file_context.file_path.read_bytes()
+                    .decode("utf-8")
+                    .splitlines(keepends=True)
+                )
+            except UnicodeDecodeError:
+                # the document declares another encoding; it would be re-written as UTF-8, so it is left alone
+                file_context.add_failure(
+                    file_path, reason := "XML file is not encoded as UTF-8"
+                )
+                logger.warning("%s %s", reason, file_path)
+                return None
             diff = create_diff(
                 original_lines,
                 new_lines,
